@@ -24,7 +24,7 @@ Print Assumptions C02_wal_complete.
     crash + reopen while the WAL record of an in-flight, unacknowledged write was torn) at any
     point, including between the three durable sub-steps of a snapshot commit — reads show
     exactly the acknowledged writes and deletes.  It is FALSE of the faithful model and of
-    the real engine in three ways: *)
+    the real engine in two ways: *)
 (** 1. a snapshot that failed and is retried commits only the OLD snapshot but removes every
        closed WAL segment, including the one holding writes acknowledged after the failure;
        a crash before the next snapshot loses those writes. *)
@@ -40,44 +40,20 @@ Theorem C02_ack_durable_refuted_lost_delete :
 Proof. exists lost_delete_witness, 1%N, 5%Z, 7%Z. destruct lost_delete as [A B]. split; assumption. Qed.
 Print Assumptions C02_ack_durable_refuted_lost_delete.
 
-(** 3. torn WAL tail + further writes: WAL.Open seeks the re-used last segment to its end BEFORE
-       CacheLoader.Load truncates the torn tail; the reopened engine's appends land behind a
-       hole of zero bytes at which every later replay stops.  write A; write B in flight and
-       torn, crash; write C ACKNOWLEDGED by the reopened engine; crash: C is lost (A is not).
-       The history contains no snapshot, no delete, no failure: only writes and crashes. *)
-Theorem C02_torn_tail_then_write_refuted :
-  exists h k t v,
-    (forall o, In o h -> match o with DWrite _ | DCrash | DCrashTorn => True | _ => False end) /\
-    log_get (dspec_log h []) k t = Some v /\ abs (mem (drun h dinit)) k t = None.
-Proof.
-  exists torn_hole_witness, 1%N, 3%Z, 30%Z. destruct torn_hole as [A [B _]].
-  split; [|split; assumption].
-  intros o [H|[H|[H|[H|[]]]]]; subst o; exact I.
-Qed.
-Print Assumptions C02_torn_tail_then_write_refuted.
+(** (A third way — operations acknowledged after a restart from a torn WAL tail were written
+    behind a hole in the re-used segment and lost by the next restart — was repaired in the
+    code base, repo commit dc4e263207: WAL.Open appends with O_APPEND.  The model mirrors the
+    repaired code: [DCrashTorn] is a plain recovery, and the histories of that shape are now
+    covered by the positive theorems below; the driver keeps exercising them on the real
+    engine.) *)
 
-(** ... and the same hole makes an acknowledged DELETE disappear: the deleted point is back
-    after the second restart. *)
-Theorem C02_torn_tail_then_delete_refuted :
-  exists h k t v, log_get (dspec_log h []) k t = None /\ abs (mem (drun h dinit)) k t = Some v.
-Proof. exists torn_hole_delete_witness, 1%N, 1%Z, 10%Z. destruct torn_hole_delete as [A B]. split; assumption. Qed.
-Print Assumptions C02_torn_tail_then_delete_refuted.
-
-(** PARTIAL (strongest true weakening proved): for every history [dsafe], i.e. in which
-      (a) deletes and snapshot starts happen only while no snapshot commit is in flight,
-      (b) no snapshot fails,
-      (c) a crash — plain or torn — happens only while no acknowledged operation sits behind a
-          torn-tail hole: after a torn-tail crash that was followed by acknowledged writes or
-          deletes, the next crash comes only after a non-empty snapshot has been started (its
-          CloseSegment ends the holed segment) and committed through WAL.Remove; torn-tail
-          crashes themselves, also several in a row, are allowed wherever plain ones are
-    — any number of crashes anywhere else, including between Replace / ClearSnapshot /
-    WAL.Remove, any compactions, unbounded length — the content after the history is exactly
-    the acknowledged writes and deletes, nothing else, and the recovered engine keeps
-    accepting operations with the same guarantee (the history simply continues after a crash).
-    (c) is not the weakest possible condition: with only writes behind the hole a crash is
-    already harmless once Replace has installed the snapshot file; with a delete behind it
-    the deleted points come back until WAL.Remove — (c) covers both uniformly. *)
+(** PARTIAL (strongest true weakening): for every history in which deletes and snapshot
+    starts happen only while no snapshot commit is in flight and no snapshot fails
+    ([dsafe]) — any number of crashes anywhere, plain or with a torn in-flight WAL record,
+    including between Replace / ClearSnapshot / WAL.Remove, any compactions, unbounded
+    length — the content after the history is exactly the acknowledged writes and deletes,
+    nothing else, and the recovered engine keeps accepting operations with the same guarantee
+    (the history simply continues after DCrash / DCrashTorn). *)
 Theorem C02_ack_durable_partial :
   forall h, dsafe h dinit ->
     forall k lo hi asc,
@@ -85,36 +61,39 @@ Theorem C02_ack_durable_partial :
 Proof. intros h H k lo hi asc. apply ack_durable_read. exact H. Qed.
 Print Assumptions C02_ack_durable_partial.
 
-(** The crash step itself: wherever [dsafe] admits a crash after [h] (everywhere, except while
-    acknowledged operations sit behind a torn-tail hole, see (c)), recovering shows the same
-    content as the running engine did.  (Before the torn-tail hole was modelled this was stated
-    for every dsafe [h]; histories without [DCrashTorn] satisfy the new hypothesis whenever
-    they satisfied the old one: [C02_dsafe_without_torn].) *)
+(** The crash step itself: recovering from ANY state reachable by a safe history shows the
+    same content as the running engine did. *)
 Theorem C02_crash_preserves_content :
-  forall h, dsafe (h ++ [DCrash]) dinit -> forall k t,
+  forall h, dsafe h dinit -> forall k t,
     abs (mem (recover (drun h dinit))) k t = abs (mem (drun h dinit)) k t.
-Proof. exact crash_preserves. Qed.
+Proof.
+  intros h H k t. apply durable.
+  apply (drun_refines h dinit [] inv_init (fun _ _ => eq_refl) H).
+Qed.
 Print Assumptions C02_crash_preserves_content.
 
-(** Without torn-tail crashes (c) is vacuous: the hypothesis of the theorems is then exactly the
-    one stated before the hole was modelled (deletes/snapshot starts at phase 0, no failed
-    snapshot). *)
-Theorem C02_dsafe_without_torn :
-  forall h, ~ In DCrashTorn h -> dsafe_old h dinit -> dsafe h dinit.
-Proof. exact dsafe_without_torn. Qed.
-Print Assumptions C02_dsafe_without_torn.
+(** Torn tail + further writes (the shape of the repaired defect), unconditionally: for EVERY
+    history made of writes and crashes of either kind only — e.g. write A; write B in flight,
+    torn, crash; write C acknowledged; crash — no hypothesis is needed: reads show exactly
+    the acknowledged writes. *)
+Theorem C02_writes_and_crashes_durable :
+  forall h, Forall (fun o => match o with DWrite _ | DCrash | DCrashTorn => True | _ => False end) h ->
+    forall k lo hi asc,
+      read (mem (drun h dinit)) k lo hi asc = spec_read (dspec_log h []) k lo hi asc.
+Proof. intros h H k lo hi asc. apply ack_durable_read. apply dsafe_writes_crashes. exact H. Qed.
+Print Assumptions C02_writes_and_crashes_durable.
 
 Example C02_nonvacuous :
   let h := [DWrite [(1%N, 1%Z, 10%Z)]; DSnapBegin; DWrite [(1%N, 1%Z, 11%Z); (2%N, 3%Z, 5%Z)]; DCommitReplace;
             DCrash; DDelete [2%N] 0%Z 9%Z; DWrite [(1%N, 2%Z, 12%Z)]; DCrash] in
   dsafe h dinit /\ read (mem (drun h dinit)) 1%N 0%Z 9%Z true = [(1, 11); (2, 12)]%Z /\
   read (mem (drun h dinit)) 2%N 0%Z 9%Z true = [].
-Proof. vm_compute. repeat split; intros; discriminate. Qed.
+Proof. vm_compute. repeat split. Qed.
 
-(** a torn-tail crash, acknowledged operations behind the hole, a committed snapshot, a crash *)
+(** the former witness of the torn-tail hole, and a delete after a torn-tail crash: nothing is lost *)
 Example C02_nonvacuous_torn :
-  let h := [DWrite [(1%N, 1%Z, 10%Z)]; DCrashTorn; DCrashTorn; DWrite [(1%N, 2%Z, 20%Z)]; DDelete [1%N] 1%Z 1%Z;
-            DSnapBegin; DWrite [(2%N, 1%Z, 5%Z)]; DCommitReplace; DCommitClear; DCommitWalRemove; DCrash] in
-  dsafe h dinit /\ read (mem (drun h dinit)) 1%N 0%Z 9%Z true = [(2, 20)]%Z /\
+  let h := [DWrite [(1%N, 1%Z, 10%Z)]; DCrashTorn; DWrite [(1%N, 3%Z, 30%Z)]; DCrash;
+            DCrashTorn; DDelete [1%N] 1%Z 1%Z; DWrite [(2%N, 1%Z, 5%Z)]; DCrash] in
+  dsafe h dinit /\ read (mem (drun h dinit)) 1%N 0%Z 9%Z true = [(3, 30)]%Z /\
   read (mem (drun h dinit)) 2%N 0%Z 9%Z true = [(1, 5)]%Z.
-Proof. vm_compute. repeat split; intros; discriminate. Qed.
+Proof. vm_compute. repeat split. Qed.
